@@ -1178,7 +1178,10 @@ func (u *Unit) insideStruct(x, addr Term) Term {
 	// opaque root: it may itself be a field / element address (akind != 0)
 	guard := True
 	for i := 0; i < 3; i++ {
-		guard = And(guard, Neq(App("akind", SInt, cur), IntLit(0)))
+		isPart := Neq(App("akind", SInt, cur), IntLit(0))
+		guard = And(guard, isPart)
+		// a field / element address lies one level below its base
+		u.Axiom(Implies(isPart, Eq(Add(App("adepth", SInt, App("abase", SV, cur)), IntLit(1)), App("adepth", SInt, cur))))
 		cur = App("abase", SV, cur)
 		alts = append(alts, And(guard, Eq(cur, addr)))
 	}
